@@ -650,9 +650,8 @@ theorem readHeader_safe (s : Stream) :
     · intro r al
       repeat' split
       all_goals intro h
-      all_goals first
-        | (cases h; have h11 := h1.1; exact ⟨rfl, h2.2, (by omega), h1.2.2, rfl, hlt _⟩)
-        | cases h
+      all_goals cases h
+      all_goals exact ⟨rfl, h2.2, (by omega), h1.2.2, rfl, (by dsimp only; exact hlt _)⟩
   · rename_i b s' hne hrf
     have h1 := readFull_got hrf
     obtain ⟨a0, a1, a2, a3, a4, a5, a6, a7, a8, a9, a10, a11, a12, a13, a14, a15, a16, a17, a18, a19, a20, a21, a22, a23, hb⟩ :=
@@ -683,5 +682,169 @@ theorem openReader_safe (gz : Stream → Option Stream) (s : Stream) :
       obtain ⟨q1, q2, q3, q4, q5, q6⟩ := this.2 r al h
       exact ⟨q1, q5, q6, s, Or.inl rfl, q2, q3, q4⟩
   · exact ⟨(by intro k h; cases h), (by intro r al h; cases h)⟩
+
+/-! ## call sequences -/
+
+/-- The outcomes of a sequence of read calls with the given modes (true = zero-copy). -/
+def outs (r : Reader) : List Bool → List Out
+  | [] => []
+  | zc :: ms => (read zc r).out :: outs (read zc r).r ms
+
+theorem outs_mode : ∀ (ms1 ms2 : List Bool) (r1 r2 : Reader), ms1.length = ms2.length → SameBut r1 r2 →
+    outs r1 ms1 = outs r2 ms2 := by
+  intro ms1
+  induction ms1 with
+  | nil => intro ms2 r1 r2 hl _; cases ms2 with | nil => rfl | cons _ _ => simp at hl
+  | cons z1 ms1 ih =>
+    intro ms2 r1 r2 hl h
+    cases ms2 with
+    | nil => simp at hl
+    | cons z2 ms2 =>
+      obtain ⟨ho, hr⟩ := read_mode z1 z2 r1 r2 h
+      simp only [outs, ho]
+      rw [ih ms2 _ _ (by simpa using hl) hr]
+
+/-- Every read call of an arbitrary sequence of calls (with SetSnaplen calls in between),
+    paired with the state it started from. -/
+def steps (r : Reader) : List Op → List (Reader × Step)
+  | [] => []
+  | .read zc :: ops => (r, read zc r) :: steps (read zc r).r ops
+  | .setSnaplen n :: ops => steps (setSnaplen r n) ops
+
+theorem steps_safe (ops : List Op) : ∀ (r : Reader), ∀ x ∈ steps r ops,
+    StepSafe x.1 x.2 ∧ x.1.s.data.length ≤ r.s.data.length ∧ x.1.s.fail = r.s.fail := by
+  induction ops with
+  | nil => intro r x hx; simp [steps] at hx
+  | cons op ops ih =>
+    intro r x hx
+    cases op with
+    | read zc =>
+      simp only [steps, List.mem_cons] at hx
+      rcases hx with rfl | hx
+      · exact ⟨read_safe zc r, Nat.le_refl _, rfl⟩
+      · have hs := read_safe zc r
+        obtain ⟨a, b, c⟩ := ih _ x hx
+        exact ⟨a, Nat.le_trans b hs.mono, by rw [c, hs.frame.2.2.2.2]⟩
+    | setSnaplen n =>
+      simp only [steps] at hx
+      exact ih (setSnaplen r n) x hx
+
+/-- Each returned packet consumed at least 16 bytes: the number of packets is bounded by the input. -/
+theorem readAll_count (zc : Bool) : ∀ (n : Nat) (r : Reader), r.s.data.length ≤ n →
+    16 * (readAll zc r).1.length ≤ r.s.data.length := by
+  intro n
+  induction n with
+  | zero =>
+    intro r hn
+    have e : r.s.data = [] := List.eq_nil_of_length_eq_zero (by omega)
+    have o := read_empty zc r e
+    rw [readAll_stop _ _ (by rw [o]; intro p hp; cases hp)]
+    simp
+  | succ n ih =>
+    intro r hn
+    cases hout : (read zc r).out with
+    | pkt p =>
+      have hs := (read_safe zc r).pktOk p hout
+      rw [readAll_pkt zc r p hout]
+      have := ih (read zc r).r (by omega)
+      simp only [List.length_cons]
+      omega
+    | stop k => rw [readAll_stop zc r (by rw [hout]; intro p hp; cases hp)]; simp
+    | err => rw [readAll_stop zc r (by rw [hout]; intro p hp; cases hp)]; simp
+    | panic k => rw [readAll_stop zc r (by rw [hout]; intro p hp; cases hp)]; simp
+
+theorem readFull_stop_kind {s s' : Stream} {n : Nat} {k : Stop} (h : readFull s n = .stop k s') :
+    k = if s.fail then .ioerr else if s.data.length = 0 then .eof else .ueof := by
+  unfold readFull at h
+  split at h
+  · cases h
+  · split at h
+    · cases h
+    · cases h; rfl
+
+/-- On a failing stream a call never reports end of file: the stream's error surfaces. -/
+theorem read_fail_kind (zc : Bool) (r : Reader) (hf : r.s.fail = true) (k : Stop) (h : (read zc r).out = .stop k) :
+    k = .ioerr := by
+  revert h
+  unfold read
+  split
+  · rename_i k' s' hrf
+    have := readFull_stop_kind hrf
+    intro h; cases h
+    simpa [hf] using this
+  · rename_i s' hrf
+    have h1 := readFull_got hrf
+    simp only
+    split
+    · intro h; cases h
+    · split
+      · intro h; cases h
+      · unfold readData
+        simp only
+        split
+        · intro h; cases h
+        · split
+          · rename_i k' s'' hrf2
+            have := readFull_stop_kind hrf2
+            intro h; cases h
+            simpa [h1.2.2, hf] using this
+          · intro h; cases h
+  · intro h; cases h
+
+theorem readAll_fail (zc : Bool) : ∀ (n : Nat) (r : Reader), r.s.data.length ≤ n → r.s.fail = true →
+    (readAll zc r).2 = .stop .ioerr ∨ (readAll zc r).2 = .err := by
+  intro n
+  induction n with
+  | zero =>
+    intro r hn hf
+    have e : r.s.data = [] := List.eq_nil_of_length_eq_zero (by omega)
+    have o := read_empty zc r e
+    rw [readAll_stop _ _ (by rw [o]; intro p hp; cases hp), o]
+    simp [hf]
+  | succ n ih =>
+    intro r hn hf
+    have hs := read_safe zc r
+    cases hout : (read zc r).out with
+    | pkt p =>
+      have hp := hs.pktOk p hout
+      rw [readAll_pkt zc r p hout]
+      exact ih (read zc r).r (by omega) (by rw [hs.frame.2.2.2.2, hf])
+    | stop k =>
+      rw [readAll_stop zc r (by rw [hout]; intro p hp; cases hp), hout, read_fail_kind zc r hf k hout]
+      exact Or.inl rfl
+    | err => rw [readAll_stop zc r (by rw [hout]; intro p hp; cases hp), hout]; exact Or.inr rfl
+    | panic k => exact absurd hout (hs.noPanic k)
+
+/-! ## the specification function `whole` -/
+
+theorem whole_le (j : Nat) (ps : List Pkt) : whole j ps ≤ ps.length := by
+  induction ps generalizing j with
+  | nil => simp [whole]
+  | cons p ps ih =>
+    unfold whole
+    split
+    · have := ih (j - (16 + p.data.length)); simp; omega
+    · simp
+
+/-- `whole j ps` records fit into `j` bytes, and the next one (if any) does not. -/
+theorem whole_spec (nanos : Bool) (j : Nat) (ps : List Pkt) :
+    (encAll nanos (ps.take (whole j ps))).length ≤ j ∧
+    (whole j ps < ps.length → j < (encAll nanos (ps.take (whole j ps + 1))).length) := by
+  induction ps generalizing j with
+  | nil => simp [whole, encAll]
+  | cons p ps ih =>
+    unfold whole
+    split
+    · rename_i h
+      obtain ⟨a, b⟩ := ih (j - (16 + p.data.length))
+      simp only [List.take_succ_cons, encAll, List.length_append, encPkt_length, List.length_cons]
+      constructor
+      · omega
+      · intro hlt
+        have := b (by omega)
+        omega
+    · rename_i h
+      simp [encAll, encPkt_length]
+      omega
 
 end Gp.Pcap
